@@ -18,13 +18,27 @@ for d in sorted(glob.glob("/verif/seeded/*/")):
         else:
             checks.append(f"{cid}: not reported")
     n += 1
-    caught += 1 if conf.get("caught_by_quick_check") else 0
+    rc = [r for r in m.get("rechecks", []) if r.get("patch_applies")]
+    stale = [r for r in m.get("rechecks", []) if not r.get("patch_applies")]
+    first_caught = bool(conf.get("caught_by_quick_check"))
+    now_caught = rc[-1].get("caught") if rc else first_caught
+    caught += 1 if now_caught else 0
+    if rc:
+        last = rc[-1]
+        mm = re.search(r"cases=(\d+).*failing=(\d+).*disagree=(\d+)", " ".join(last.get("lines", [])))
+        kind = last.get("replay_kind") or ""
+        checks.append(("latest run (verif %s, repo %s): " % (last.get("verif_head"), last.get("repo_head")))
+                      + (("VIOLATION, " + ("no failing input (correspondence)" if kind == "correspondence" else "failing input")
+                          + (f" ({mm.group(2)} failing / {mm.group(3)} disagreeing of {mm.group(1)} cases)" if mm else "")) if last.get("caught") else "not reported")
+                      + ("" if first_caught or not last.get("caught") else " — missed when first run, reported after the strengthening described in section 14.4"))
+    if stale and not rc:
+        checks.append("the patch no longer applies to /repo HEAD (a later fix: commit touched the same lines); confirmed at " + str(conf.get("checked_at_repo_head")))
     summ = (sub.get("summary") or "").replace("|", "/").replace("\n", " ")
     need = (sub.get("needs_to_manifest") or "").replace("|", "/").replace("\n", " ")
     note = m.get("note", "")
     rows.append(f"| {sid} | {summ[:300]} | {need[:240]} | {'yes' if conf.get('confirmed') else 'NO'} | {'; '.join(checks)}{(' — ' + note) if note else ''} |")
 table = (f"{n} changes kept, every one confirmed here (demo passes before, patch applies, 41 unit tests pass, demo fails after); "
-         f"{caught} of {n} reported by the quick check of their property.\n\n"
+         f"{caught} of {n} reported by the quick check of their property (latest run where the change was re-run).\n\n"
          "| seed | change (as described by its author) | needs, to manifest | confirmed | quick check of the property against the changed tree |\n"
          "|------|--------|--------------------|-----------|--------------------|\n" + "\n".join(rows))
 p = "/verif/DESIGN.md"
